@@ -8,6 +8,24 @@ use serde_json::{json, Value};
 
 pub const VERIF: &str = "/verif";
 
+/// where a run writes (evidence, replays, scratch, build output of generated programs). Always /verif
+/// for registered checks; tools/altcheck.sh points it elsewhere so that seeded changes can be tried on
+/// scratch copies of the repository while /repo stays untouched.
+pub fn out_dir() -> PathBuf {
+    match std::env::var("XSG_OUT") {
+        Ok(p) if !p.is_empty() => PathBuf::from(p),
+        _ => PathBuf::from(VERIF),
+    }
+}
+
+/// the repository whose binary is built for the CLI checks (the library is linked at build time)
+pub fn repo_dir() -> PathBuf {
+    match std::env::var("XSG_REPO") {
+        Ok(p) if !p.is_empty() => PathBuf::from(p),
+        _ => PathBuf::from("/repo"),
+    }
+}
+
 #[derive(Clone, Debug)]
 pub struct Violation {
     pub sig: String,
@@ -212,7 +230,7 @@ fn sanitize(sig: &str) -> String {
 }
 
 pub fn write_replay(property: &str, v: &Violation) -> PathBuf {
-    let dir = Path::new(VERIF).join("replays").join(property);
+    let dir = out_dir().join("replays").join(property);
     let _ = std::fs::create_dir_all(&dir);
     let path = dir.join(format!("{}.json", sanitize(&v.sig)));
     let body = json!({"property": property, "sig": v.sig, "detail": v.detail, "case": v.case});
@@ -317,7 +335,7 @@ pub fn finish(meta: RunMeta, report: Report, findings: &[Finding], witness_sigs:
         "verdict": if exit == 1 { "violated" } else if exit == 2 { "inconclusive" } else { "held on what was observed" },
         "notes": report.notes,
     });
-    let dir = Path::new(VERIF).join("evidence");
+    let dir = out_dir().join("evidence");
     let _ = std::fs::create_dir_all(&dir);
     let path = dir.join(format!("{}.json", meta.property));
     std::fs::write(&path, serde_json::to_string_pretty(&evidence).unwrap()).expect("write evidence");
